@@ -5,4 +5,5 @@ def main (args : List String) : IO UInt32 := do
   | ["docker"] => Oracle.serve Oracle.Misc.DockerO.handle; return 0
   | ["names"] => Oracle.serve Oracle.Misc.NamesO.handle; return 0
   | ["sender"] => Oracle.serve Oracle.Misc.SendO.handle; return 0
+  | ["helium"] => Oracle.serve Oracle.Misc.HeliumO.handle; return 0
   | _ => IO.eprintln "usage: oracle_misc docker|names|chunks|sender|helium"; return 2
